@@ -19,6 +19,117 @@ def valid_utf8_consts(src):
     return not re.search(r'\\x[89a-fA-F][0-9a-fA-F]|\\[23][0-7][0-7]', src)
 
 
+
+def load_known_ids():
+    """open known findings of this property by id (known_findings.jsonl and the per-agent known_findings.*.jsonl)"""
+    import glob, json
+    ids = {}
+    for fn in [os.path.join(C.VERIF, "known_findings.jsonl")] + sorted(glob.glob(os.path.join(C.VERIF, "known_findings.*.jsonl"))):
+        if not os.path.exists(fn):
+            continue
+        for line in open(fn):
+            line = line.strip()
+            if not line or line.startswith("#"):
+                continue
+            j = json.loads(line)
+            if j.get("property") == PROP and not j.get("fixed") and j.get("id"):
+                ids.setdefault(j["id"], j)
+    return ids
+
+
+K_FID = "function-ids-collide-after-withcode"
+
+
+def life_stream(res, exe, rng, srcs, tier, oracle, cov):
+    """marshal / unmarshal / run equivalence at every point of the life of ONE code: the program is fed to one compiler in
+    pieces (or to a new compiler given the code, compiler.WithCode), and the growing code is snapshot (marshalled,
+    unmarshalled, re-marshalled, run side by side) after pieces chosen by the digits - also after an earlier marshal, after
+    Flatten() and after it has run; after one of the snapshots a twin history continues on the reloaded code"""
+    n = 2400 if tier == "quick" else 40000
+    step = max(1, len(srcs) // n)
+    pick = srcs[::step][:n]
+    cases = []
+    for src in pick:
+        digits = "".join(str(rng.below(10)) for _ in range(16))
+        cases.append((src, digits))
+    nsh = C.NCPU
+    chunks = [cases[k::nsh] for k in range(nsh)]
+
+    def work(k):
+        inp = "".join(s.encode("utf-8", "surrogateescape").hex() + "\t" + d + "\n" for s, d in chunks[k])
+        return subprocess.run([exe, "life"], input=inp.encode(), stdout=subprocess.PIPE).stdout.decode("utf-8", "replace").splitlines()
+    with ThreadPoolExecutor(max_workers=nsh) as ex:
+        parts = list(ex.map(work, range(nsh)))
+    outs = [None] * len(cases)
+    for k in range(nsh):
+        for j, l in enumerate(parts[k]):
+            if k + j * nsh < len(outs):
+                outs[k + j * nsh] = l
+    known_ids = load_known_ids()
+    stats = {"histories": 0, "skipped": 0, "snapshots": 0, "snapshots_of_grown_code": 0, "twin_snapshots": 0, "with_functions": 0}
+    known_seen = {}
+    for (src, digits), o in zip(cases, outs):
+        case = {"kind": "oracle-violation", "route": "life", "source": src, "digits": digits}
+        if o is None or not (o.startswith("LIFE ") or o.startswith("SKIP")):
+            oracle.append(dict(case, impl=(o or "")[:300], why="the history of marshalling a growing code panicked or gave no observation"))
+            continue
+        if o.startswith("SKIP"):
+            stats["skipped"] += 1
+            continue
+        stats["histories"] += 1
+        live_at = {}
+        for rec in o[5:].split("|"):
+            f = dict(x.split("=", 1) for x in rec.split(";") if "=" in x)
+            why = None
+            stats["snapshots"] += 1
+            if f.get("who") == "twin":
+                stats["twin_snapshots"] += 1
+            elif f.get("at") != "1":
+                stats["snapshots_of_grown_code"] += 1
+            if f.get("codes", "1/1") not in ("1/1",):
+                stats["with_functions"] += 1
+            orig, rel = f.get("orig", ""), f.get("reloaded", "")
+            timeout = "TIMEOUT" in orig or "TIMEOUT" in rel
+            if "compile" in f:
+                why = "a piece that compiles into the original code does not compile into the reloaded code: " + f["compile"]
+            elif "marshal" in f:
+                why = "marshalling failed: " + f["marshal"]
+            elif f.get("det") != "1":
+                why = "marshalling the same code twice gave different bytes"
+            elif f.get("unmarshal") != "ok":
+                why = "unmarshalling the marshaller's own output failed: " + f.get("unmarshal", "")
+            elif orig != rel and not timeout:
+                why = "the reloaded code evaluates differently: %s vs %s" % (orig[:150], rel[:150])
+            elif f.get("stable") != "1":
+                why = "marshalling the reloaded code does not reproduce the same bytes"
+            elif f.get("same_dump") != "1":
+                why = "the reloaded code differs structurally (instructions/constants/names/linkage; %s code objects)" % f.get("codes")
+            elif f.get("after_run") != "1" and not timeout:
+                why = "after original and reloaded code have run, marshalling them no longer gives the same bytes"
+            elif f.get("who") == "live":
+                live_at[f.get("at")] = orig
+            elif f.get("who") == "twin" and f.get("at") in live_at and live_at[f["at"]] != orig and not timeout and "TIMEOUT" not in live_at[f["at"]]:
+                why = ("the reloaded code, grown by the same pieces as the original, evaluates differently: %s vs %s"
+                       % (orig[:150], live_at[f["at"]][:150]))
+            if why:
+                why = "snapshot after piece %s (%s history): %s" % (f.get("at"), f.get("who"), why)
+                if not valid_utf8_consts(src):
+                    res.known_finding("a string constant that is not valid UTF-8 (e.g. \"\\377\") is replaced by U+FFFD in the marshalled JSON, "
+                                      "so the reloaded code carries a different constant and re-marshals to different bytes")
+                elif f.get("fid_dup") == "1" and "8" in digits and K_FID in known_ids:
+                    known_seen[K_FID] = known_seen.get(K_FID, 0) + 1
+                    known_seen.setdefault("example", {"source": src, "digits": digits, "why": why})
+                else:
+                    oracle.append(dict(case, impl=rec[:600], why=why))
+                break
+    if K_FID in known_seen:
+        ex = known_seen["example"]
+        res.known_finding("%s: %s [%d histories this run, e.g. digits %s on %r]" % (
+            K_FID, known_ids[K_FID]["what"], known_seen[K_FID], ex["digits"], ex["source"][:120]))
+    cov["life_histories"] = stats
+    return len(cases)
+
+
 def run(res):
     tier = res.tier
     nprog = 3000 if tier == "quick" else 80000
@@ -116,13 +227,16 @@ def run(res):
         if m is None or not m.startswith("ok=1 ") or m[5:] != rlink:
             corr.append({"stage": "Marshal.relink vs UnmarshalCode", "source": src, "impl": rlink, "model": m})
 
-    cov["evaluations"] = len(srcs)
+    nlife = life_stream(res, exe, rng, srcs, tier, oracle, cov)
+    cov["evaluations"] = len(srcs) + nlife
     cov["distinct_nontrivial"] = len(distinct)
     cov["rule"] = ("the programs of the C01 and C02 generators plus the harvested corpus: each is compiled, marshalled twice (the returned bytes are held and must stay as returned while later programs are marshalled), unmarshalled, "
                    "re-marshalled, and original and reloaded code are evaluated side by side (value, error class, print trace) and compared "
                    "structurally (instructions, constants incl. defaults, names, locals, parent and function-constant links, named flags); "
                    "the extracted Marshal.relink is run on the real flat definitions and compared with the links UnmarshalCode rebuilt. "
-                   "Non-trivial = distinct (definitions, outcome) pairs.")
+                   "Histories: a sample of the same programs is fed to ONE compiler piece by piece (or to a new compiler given the code, compiler.WithCode) and the growing "
+                   "code is marshalled / unmarshalled / re-marshalled / run side by side after chosen pieces - after an earlier marshal, after Flatten(), after it "
+                   "has run - and a twin history continues on a reloaded code. Non-trivial = distinct (definitions, outcome) pairs.")
     cov["samples"] = [{"source": srcs[nwit + 5][:300], "impl": outs[nwit + 5][:300], "model": mods[nwit + 5]}]
     cov["checked"] = checked
     cov["skipped_not_compiling"] = skipped
@@ -150,6 +264,8 @@ def replay(data):
     import json
     print(json.dumps(data, indent=1)[:3000])
     exe, err = C.go_build("c17obs")
-    if exe and data.get("source"):
+    if exe and data.get("source") and data.get("route") == "life":
+        print(C.run([exe, "life"], input=(data["source"].encode("utf-8", "surrogateescape").hex() + "\t" + data.get("digits", "5") + "\n").encode())[1][:4000].replace("|", "\n   "))
+    elif exe and data.get("source"):
         print(C.run([exe, "rt"], input=(data["source"].encode("utf-8", "surrogateescape").hex() + "\n").encode())[1][:1000])
     return 0
